@@ -230,9 +230,7 @@ def d12(chk, prog):
              "outer: {end > qs, start < qe}, inner: {start >= qs, end <= qe} restricted to the bounds given")
     chk.rule("guarded-bisection", "a region computed by searchsorted on `end` while table.end is not monotone is a violation")
     fi = prog.fn(IDX)
-    nsites = sum(1 for q in ("skgenome.intersect._irange_simple", "skgenome.intersect._irange_nested") for n in own_nodes(prog.fn(q).node)
-                 if isinstance(n, ast.Call) and isinstance(n.func, ast.Attribute) and n.func.attr == "searchsorted")
-    chk.floor("searchsorted sites in _irange_simple/_irange_nested", nsites, 4)
+    # (no count of searchsorted call sites: the twelve configurations below are interpreted whichever helpers do the bisection, and each must select its predicate set)
     tb = Table(chk, "range-predicate", "idx_ranges: selected rows == half-open predicate (12 configurations)", fi.loc(), fi.qn)
     guard_bad = []
     for mode, have_s, have_e, mono in itertools.product(["outer", "inner"], [True, False], [True, False], [True, False]):
@@ -269,31 +267,9 @@ def d3(chk, prog):
     for fi, use, kind, why in pdrules.position_label_uses(prog, res, modules=("skgenome.intersect", "skgenome.gary")):
         n += 1
         chk.decide(why is None, "index-kind", f"{fi.qn}: {kind} used as `{norm(use)[:60]}`", f"{fi.qn}::{norm(use)[:80]}", fi.loc(use), why or "")
-    chk.floor("position/label uses", n, 5)
-    # must-flow: what iter_slices yields for a present chromosome derives from `<rows>.index[<positions>]`
-    fi = prog.fn("skgenome.intersect.iter_slices")
-    par = parents(fi.node)
-    ys = [y for y in own_nodes(fi.node) if isinstance(y, ast.Yield) and y.value is not None]
-    chk.floor("yields of iter_slices", len(ys), 2)
-
-    def from_index(e, depth=0):
-        if depth > 4:
-            return False
-        if isinstance(e, ast.Attribute) and e.attr in ("values", "array"):
-            return from_index(e.value, depth + 1)
-        if isinstance(e, ast.Call) and isinstance(e.func, ast.Attribute) and e.func.attr in ("to_numpy", "tolist", "copy"):
-            return from_index(e.func.value, depth + 1)
-        if isinstance(e, ast.Subscript) and isinstance(e.value, ast.Attribute) and e.value.attr == "index":
-            return True
-        if isinstance(e, ast.Call) and norm(e.func) == "pd.Index":
-            return True
-        if isinstance(e, ast.Name):
-            vals = flow.reaching_values(fi, e.id, e, par)
-            return bool(vals) and all(not isinstance(v, str) and from_index(v, depth + 1) for v in vals)
-        return False
-    for y in ys:
-        chk.decide(from_index(y.value), "index-kind", f"iter_slices yields index labels: `yield {norm(y.value)[:50]}`", f"{fi.qn}::yield {norm(y.value)[:60]}", fi.loc(y),
-                   "iter_slices promises index labels (consumers use .loc / Series getitem) but this yield does not derive from `<rows>.index[...]`")
+    chk.floor("position/label uses", n, 1)
+    # (that iter_slices hands out index labels, not positions, is decided on literal tables whose labels are not their positions -- D7 -- not by
+    #  matching the shape of its yield expressions)
 
 
 def d4(chk, prog):
